@@ -1,5 +1,6 @@
 import GeoVerif.Lemmas.C15
 import GeoVerif.Lemmas.Friction
+import GeoVerif.Lemmas.CodePressure
 /-!
 # C15 — Pumping power and modelled pressures stay physical
 
@@ -75,5 +76,24 @@ theorem friction_turbulent_partial (pi q rho depth d₁ d₂ f₁ f₂ : Rat) (h
 example : resPressure 3 2 1000 150 50 = [1500, 1375, 1250, 1125, 1000, 1000] := by decide +kernel
 example : resPressure 5 1 1000 150 50 = [1500, 1250, 1000, 1000, 1000] := by decide +kernel
 example : injPressure 2 2 100 10 = [100, 105, 110, 115] := by decide +kernel
+
+/-! ## Tie by translation
+`Generated/Code.lean` holds the transcription of the current source of `InjectionReservoirPressurePredictor` (`tools/py2lean.py`); it is
+the model `injPressure` for every lifetime, every number of time steps per year and all rational pressures / rates. -/
+theorem code_InjectionReservoirPressurePredictor_is_model (L n : Nat) (p0 rate : Rat) :
+    Code.InjectionReservoirPressurePredictor (L : Int) (n : Int) p0 rate = injPressure L n p0 rate := code_injPressure_eq L n p0 rate
+
+/-- so the source as written rises at its stated rate … -/
+theorem code_injection_rises (L n : Nat) (p0 rate : Rat) (t : Nat) (ht : t < L * n) :
+    (Code.InjectionReservoirPressurePredictor (L : Int) (n : Int) p0 rate).getD t 0 = p0 + rate / (n : Rat) * (t : Rat) := by
+  rw [code_injPressure_eq]; exact injPressure_closed L n p0 rate t ht
+
+/-- … and never falls when the rate is non-negative -/
+theorem code_injection_monotone (L n : Nat) (p0 rate : Rat) (hr : 0 ≤ rate) (i j : Nat) (hij : i ≤ j) (hj : j < L * n) :
+    (Code.InjectionReservoirPressurePredictor (L : Int) (n : Int) p0 rate).getD i 0 ≤
+      (Code.InjectionReservoirPressurePredictor (L : Int) (n : Int) p0 rate).getD j 0 := by
+  rw [code_injPressure_eq]; exact injPressure_mono L n p0 rate hr i j hij hj
+
+example : Code.InjectionReservoirPressurePredictor 2 2 100 4 = [100, 102, 104, 106] := by decide +kernel
 
 end GeoVerif.C15
